@@ -330,6 +330,7 @@ func main() {
 
 	// 4. merge
 	machinery := false
+	aborted := false // a shard stopped at a non-terminating execution (reported as a violation)
 	var tot struct {
 		scen, execs, cps, states, trans, distinct, distinctNT, selfchk int64
 		maxDepth                                                       int
@@ -378,6 +379,9 @@ func main() {
 		if ex, _ := r.st["exhaustive"].(bool); !ex {
 			tot.exhaustive = false
 		}
+		if ab, _ := r.st["aborted"].(bool); ab {
+			aborted = true
+		}
 		if cm, ok := r.st["counters"].(map[string]any); ok {
 			for k, v := range cm {
 				f, _ := v.(float64)
@@ -420,7 +424,7 @@ func main() {
 		os.Exit(2)
 	}
 	// every scenario must have been run by exactly one shard
-	if only == "" {
+	if only == "" && !aborted {
 		lc := exec.Command(bin, append(append([]string{}, common...), "-list")...)
 		lc.Env = runEnv
 		if lo, err := lc.Output(); err == nil {
